@@ -178,8 +178,11 @@ package getty
 //@ ghost var wp_calls int
 //@ ghost var wp_err_nil bool
 //@ ghost var wp_id int
+// A session's closed flag and remote address are stable for the duration of one call (assumed).
 //@ iface (getty.Session).IsClosed
-//@   ensures true
+//@   ensures result == ufb("session.closed", self)
+//@ iface (getty.Session).RemoteAddr
+//@   ensures result == ufs("session.addr", self)
 //@ iface (getty.Session).WritePkg
 //@   modifies ghost.wp_calls, ghost.wp_err_nil, ghost.wp_id
 //@   ensures ghost.wp_calls == old(ghost.wp_calls) + 1 && ghost.wp_err_nil == (result2 == nil)
